@@ -79,6 +79,7 @@ def run_tlc(
     timeout=1800,
     heap="6g",
     keep=False,
+    jvm=(),
 ):
     """Run TLC on spec/<module>.tla with spec/<cfg>; returns TLCResult."""
     meta = scratch_dir("tlcmeta")
@@ -89,6 +90,7 @@ def run_tlc(
         f"-Xmx{heap}",
         "-Xss64m",
         "-Dtlc2.TLC.ide=vf",
+        *jvm,
         "-cp",
         f"{JAR}:{DEPS}",
         "tlc2.TLC",
@@ -125,7 +127,7 @@ def run_tlc(
     return TLCResult(rc, out, time.time() - t0)
 
 
-def judge(module, cases, workers=None, timeout=1800, cfg=None, heap="8g"):
+def judge(module, cases, workers=None, timeout=1800, cfg=None, heap="8g", jvm=()):
     """Hand recorded cases to the trace specification `module`.
 
     Returns (verdicts: {case id -> clause string}, TLCResult).  Raises
@@ -145,6 +147,7 @@ def judge(module, cases, workers=None, timeout=1800, cfg=None, heap="8g"):
             workers=workers,
             timeout=timeout,
             heap=heap,
+            jvm=jvm,
         )
     finally:
         shutil.rmtree(d, ignore_errors=True)
